@@ -136,7 +136,7 @@ POOL = ["s01_elif_overlap", "s02_reassign_cond_var", "s05_multi_assign", "s06_al
 def main():
     run = Run("C20", "exploration")
     rnd = random.Random(f"c20-{run.seed}")
-    corpus = {pid: (text, goals) for pid, text, goals in families.corpus() + families.corpus("corpus_func") + families.corpus("corpus_sym") + families.corpus("corpus_guard")}
+    corpus = {pid: (text, goals) for pid, text, goals in families.corpus() + families.corpus("corpus_func") + families.corpus("corpus_sym") + families.corpus("corpus_guard") + families.corpus("corpus_hist")}
     pool = [p for p in POOL if p in corpus]
 
     def step(pid, goals=None, **kw):
@@ -155,6 +155,16 @@ def main():
         gl = corpus[T][1][:3]
         for perm in list(itertools.permutations(gl))[1:(3 if run.quick else 6)]:
             plans.append((f"goal-order/{T}/{'-'.join(perm)}", fresh, 0, [step(T, goals=list(perm))], 0, None))
+    # twins: programs whose texts coincide except for the value of a named constant (memoisation keyed too coarsely shows here)
+    twins = [("h01_cat_quarter", "h02_cat_three_quarters"), ("h02_cat_three_quarters", "h01_cat_quarter"), ("h03_gamma_shape2", "h04_gamma_shape3"),
+             ("h01_cat_quarter", "h05_cat_symbolic"), ("h05_cat_symbolic", "h02_cat_three_quarters"), ("h04_gamma_shape3", "h03_gamma_shape2")]
+    for A, B in twins:
+        if A in corpus and B in corpus:
+            plans.append((f"twin/{A}>{B}", [step(B)], 0, [step(A), step(B)], 0, None))
+            plans.append((f"twin/{A}>{B}>{A}>{B}", [step(B)], 0, [step(A), step(B), step(A), step(B)], 0, None))
+    ta, tb = corpus["h01_cat_quarter"][0], corpus["h02_cat_three_quarters"][0]
+    plans.append(("cli/twin-benchmarks", [{"kind": "cli", "argv": ["b.prob", "--goals", "E(x)", "E(x**2)"], "files": {"a.prob": ta, "b.prob": tb}}], 0,
+                  [{"kind": "cli", "argv": ["a.prob", "b.prob", "--goals", "E(x)", "E(x**2)"], "files": {"a.prob": ta, "b.prob": tb}}], 0, 1))
     # functional programs: exact mode flag is process-global class state
     for F in [p for p in corpus if p.startswith("f0")][: (2 if run.quick else 6)]:
         fresh = [step(F, opts={"exact_func_moments": True})]
